@@ -10,7 +10,7 @@ GENS = [("Macros", "gen_macros"), ("LoadStore", "gen_loadstore")]
 CFG = {
     "C05": {"modules": ["W2c2Verif.Props.C05"], "names": gl.PLAIN[0] + gl.PLAIN[1], "aligned": False,
             "trusted": ["memcpy between an object and memory assembles the object's value per host byte order (C object representation); out-of-bounds accesses are outside the property"]},
-    "C16": {"modules": ["W2c2Verif.Props.C16", "W2c2Verif.Props.C16Conc"], "names": gl.ATOMIC_LOADS + gl.ATOMIC_STORES + gl.rmw_names(), "aligned": True,
+    "C16": {"modules": ["W2c2Verif.Props.C16", "W2c2Verif.Props.C16Conc", "W2c2Verif.Props.C16Emit"], "names": gl.ATOMIC_LOADS + gl.ATOMIC_STORES + gl.rmw_names(), "aligned": True,
             "trusted": ["each __atomic_* builtin is ONE indivisible, sequentially consistent memory step on a naturally aligned cell (gcc/clang + hardware; assumed, exercised by a TSan stress run in the thorough tier)"]},
     "C19": {"modules": ["W2c2Verif.Props.C19"], "names": gl.PLAIN[0] + gl.PLAIN[1] + gl.ATOMIC_LOADS + gl.ATOMIC_STORES + gl.rmw_names(), "aligned": True,
             "trusted": ["no big-endian host or emulator exists in the image: the theorems are about the regenerated BE bodies with End.be; the real BE bodies are executed only in the forced-BE-on-this-LE-host configuration (model instantiated with body=be, host=le)"]},
@@ -57,6 +57,8 @@ def run(tier, PROP):
         modules += c18.GROW_CONTENT_MODULES                      # memory.grow: contents of the new pages (Props/C05Grow)
         modules += ["W2c2Verif.Props.C05Sim"]                    # memOK_concrete: C05's functions discharge the simulation's memory hypothesis
         gens += [("MemFuncs", "gen_memfuncs"), ("EmitTable", "gen_emit"), ("Literals", "gen_literals")]
+    if PROP == "C16":
+        gens += [("AtomicEmit", "gen_atomic_emit")]              # the translator's dispatch of the atomic instructions (Props/C16Emit)
     pr = prove(chk, modules, gens)
     broken = [e for e in pr["errors"]] if not pr["build_ok"] else []
     sig = mo.signatures()
@@ -114,6 +116,13 @@ def run(tier, PROP):
             n_tok, n_e2e = (300, 60) if tier == "quick" else (4000, 600)
             os.makedirs(os.path.join(d, "e2e"), exist_ok=True)
             e2e_extra.run(chk, PROP, [("memory", 1.0)], n_tok, n_e2e, 3, pr["driver_ok"], broken, os.path.join(d, "e2e"))
+        if PROP == "C16":
+            # the emitted atomic instructions through the whole pipeline: real w2c2 -> gcc (-DWASM_THREADS_PTHREADS) vs V8; the
+            # directed corpus module calls every one of the 63 instructions (old value and resulting cell)
+            import e2e_extra
+            n_tok, n_e2e = (60, 40) if tier == "quick" else (600, 400)
+            os.makedirs(os.path.join(d, "e2e"), exist_ok=True)
+            e2e_extra.run(chk, PROP, [("atomics", 1.0)], n_tok, n_e2e, 3, pr["driver_ok"], broken, os.path.join(d, "e2e"))
         chk.coverage["rule"] = ("for every accessor function: random/boundary memory images × addresses (all alignments for plain, natural for atomic; first, last, middle) × boundary/random operands; "
                                 "case = (function, memory image, address, operands); compared: real header function / regenerated Lean body / specification computed independently in Python")
     if tier == "thorough" and pr["build_ok"]:
@@ -154,7 +163,7 @@ def mo_run(exe, lines):
 def replay(path, PROP):
     import json
     r = json.load(open(path))
-    if "spec" in r:                       # an e2e violation of an emitted memory instruction
+    if "spec" in r and "line" not in r:   # an e2e violation of an emitted memory instruction
         import c03
         return c03.replay(path, PROP="C03")
     if str(r.get("args", r.get("line", ""))).startswith("content") or r.get("kind") == "grow-content":
